@@ -37,6 +37,11 @@ pub enum Universe {
     /// square; the attacker to move; both colours. Contains the mates in two whose key is a quiet waiting move after
     /// which the defender must move a piece of his own.
     UZ { a: u8, b: u8, d: u8 },
+    /// two promoting pawns, one target: pawns of the side to move on its 7th rank two files apart, an enemy piece (r, n, b,
+    /// q) on the last-rank square between them, the mover's king on every square, one enemy slider (r, b, q) on every
+    /// square (pins one pawn, or gives check), the enemy king on two far squares; both colours. The two captures onto
+    /// the same square can differ in legality - per-destination shortcuts in the legality filter show here.
+    UPP,
     /// castling x en passant product: kings on e1/e8, every (rook subset, rights subset) of UC, a capturer/victim pawn pair
     /// on every file pair, with the en-passant flag set and not set, both colours: all (rights, ep) state bytes on one board
     UCE,
@@ -64,6 +69,7 @@ impl Universe {
             Universe::UEA => "UEA".into(),
             Universe::UCE => "UCE".into(),
             Universe::UEX => "UEX".into(),
+            Universe::UPP => "UPP".into(),
             Universe::UZ { a, b, d } => format!("UZ[{}{}|{}]", piece_letter(code(*a, true)), piece_letter(code(*b, true)), piece_letter(code(*d, false))),
             Universe::UPIN => "UPIN".into(),
             Universe::UDBL => "UDBL".into(),
@@ -76,6 +82,7 @@ impl Universe {
             Universe::U2 | Universe::U3 | Universe::U4 { .. } | Universe::UE { .. } | Universe::UCK { .. } | Universe::UPIN | Universe::UDBL => 64,
             Universe::UEA | Universe::UEX => 8,
             Universe::UZ { .. } => 12,
+            Universe::UPP => 64,
             Universe::UC { .. } | Universe::UCE => 81,
             Universe::UP => 8,
         }
@@ -115,6 +122,7 @@ impl Universe {
             Universe::UCK { extras } => uck_unit(unit as u8, *extras, f),
             Universe::UEA => uea_unit(unit as i8, f),
             Universe::UEX => uex_unit(unit as i8, f),
+            Universe::UPP => upp_unit(unit as u8, f),
             Universe::UZ { a, b, d } => uz_unit(unit, *a, *b, *d, f),
             Universe::UPIN => upin_unit(unit as u8, f),
             Universe::UDBL => udbl_unit(unit as u8, f),
@@ -619,6 +627,41 @@ fn uz_unit(unit: usize, a: u8, b: u8, d: u8, f: &mut dyn FnMut(Pos)) {
                         let m = p.mirror();
                         if m.sane() {
                             f(m);
+                        }
+                    }
+                }
+            }
+        }
+    }
+}
+
+fn upp_unit(wk: u8, f: &mut dyn FnMut(Pos)) {
+    for left in 0..6i8 {
+        let (p1, p2, target) = (sq(6, left), sq(6, left + 2), sq(7, left + 1));
+        if [p1, p2, target].contains(&wk) {
+            continue;
+        }
+        for victim in [R, N, B, Q] {
+            for slider in [R, B, Q] {
+                for ss in 0..64u8 {
+                    if [p1, p2, target, wk].contains(&ss) {
+                        continue;
+                    }
+                    for bk in far_kings(&|s| s == wk || s == ss || s == p1 || s == p2 || s == target || adjacent(s, wk), 2) {
+                        let mut p = Pos::empty();
+                        p.b[wk as usize] = WK;
+                        p.b[bk as usize] = BK;
+                        p.b[p1 as usize] = code(P, true);
+                        p.b[p2 as usize] = code(P, true);
+                        p.b[target as usize] = code(victim, false);
+                        p.b[ss as usize] = code(slider, false);
+                        p.white = true;
+                        if p.sane() {
+                            f(p);
+                            let m = p.mirror();
+                            if m.sane() {
+                                f(m);
+                            }
                         }
                     }
                 }
